@@ -1,3 +1,4 @@
+import StepupModel.Generated.NGlob
 /-!
 # Layer P: named glob patterns (C17)
 
@@ -10,7 +11,8 @@ the tokeniser `RE_ANY_WILD.split`, `convert_nglob_to_regex`, `convert_nglob_to_g
 Platform semantics modelled by hand (validated by the correspondence harness only):
 
 * the fragment of Python `re` that the compiler emits, as an AST (`CSet`, `Atom`, `Item`) with a
-  backtracking `fullmatch` that returns the group bindings (`.` does not match a newline);
+  backtracking `fullmatch` that returns the group bindings; whether `.` matches a newline is the
+  regenerated `Generated.NGlob.dotAll` (`NGLOB_REGEX_FLAGS & re.DOTALL`);
 * `fnmatch` on one path component and CPython's `glob.iglob(recursive=True,
   include_hidden=True)` on a finite directory tree.
 
@@ -163,7 +165,7 @@ def usedNames (toks : List Tok) : List Str :=
 /-- A set of characters as the compiler writes it. -/
 inductive CSet where
   | notSlash                          -- `[^/]`
-  | dot                               -- `.` (no DOTALL: everything except a newline)
+  | dot                               -- `.` (every character under DOTALL, else all but newline)
   | cls (neg : Bool) (body : Str)     -- `[body]` / `[^body]`, body copied from the pattern
   deriving DecidableEq, Repr
 
@@ -190,7 +192,7 @@ def clsMem : Str → Nat → Bool
 
 def CSet.mem : CSet → Nat → Bool
   | .notSlash, c => c != 47
-  | .dot, c => c != 10
+  | .dot, c => Generated.NGlob.dotAll || c != 10
   | .cls neg body, c => neg != clsMem body c
 
 /-- Characters escaped by `re.escape`. -/
@@ -696,22 +698,6 @@ def iglob (t : Tree) (g : Str) : List GPath :=
     | [] => []
   else r
 
-/-- The glob ends in a recursive `**` component. -/
-def endsRecursive (g : Str) : Bool := (splitSlash g).getLast? == some [42, 42]
-
-/-- The directories that a trailing component is expanded in. -/
-def baseDirs (t : Tree) (g : Str) : List Path :=
-  match (splitSlash g).reverse with
-  | _ :: revDir => dirsOf t revDir
-  | [] => []
-
-/-- The base of a trailing `**` exists as a directory (CPython's `_glob2` yields its base unchecked). -/
-def TrailingBasesAreDirs (t : Tree) (g : Str) : Prop :=
-  endsRecursive g = true → ∀ d ∈ baseDirs t g, d ≠ [] → isDirQ t d = true
-
-/-- `NamedGlob.glob`: `Path(p) / ""` for results that are directories on disk. -/
-def mark (t : Tree) (g : GPath) : GPath := if isDirQ t g.1 then (g.1, true) else g
-
 /-- The existing paths, directories with a trailing separator. -/
 def treePaths (t : Tree) : List Str := t.map render
 
@@ -785,8 +771,16 @@ def mkNG (pattern : Str) (subs : Subs) : Except Err NG :=
       if regexValid re then .ok { regex := re, names := usedNames (tokenize pattern), glob := g }
       else .error .regex
 
+/-- What `NamedGlob.glob` does with one yielded path: `Path(p) / ""` when it is a directory on
+disk, else it is kept only if `os.path.lexists` of the yielded string holds (a yielded string
+with a trailing separator that is not a directory does not exist). -/
+def recordPath (t : Tree) (g : GPath) : Option Str :=
+  if isDirQ t g.1 then some (render (g.1, true))
+  else if !g.2 && existsQ t g.1 then some (render g)
+  else none
+
 /-- The paths `NamedGlob.glob` hands to `extend`. -/
-def globPaths (t : Tree) (g : Str) : List Str := (iglob t g).map fun x => render (mark t x)
+def globPaths (t : Tree) (g : Str) : List Str := (iglob t g).filterMap (recordPath t)
 
 /-- `NamedGlob(pattern, subs).glob()` on the tree: the recorded results. -/
 def NG.scan (ng : NG) (t : Tree) : Results := extend ng.matcher [] (globPaths t ng.glob)
